@@ -2,6 +2,7 @@ package syncsim
 
 import (
 	"bytes"
+	"context"
 	"fmt"
 	"os"
 	"path/filepath"
@@ -17,6 +18,7 @@ import (
 	"github.com/mutagen-io/mutagen/pkg/encoding"
 	"github.com/mutagen-io/mutagen/pkg/filesystem"
 	"github.com/mutagen-io/mutagen/pkg/housekeeping"
+	"github.com/mutagen-io/mutagen/pkg/synchronization"
 	"github.com/mutagen-io/mutagen/pkg/synchronization/core"
 
 	"verif/simkit"
@@ -28,6 +30,8 @@ func finalComponentScenarios(property string) []string {
 		return []string{"atomic"}
 	case "C43":
 		return []string{"housekeeping"}
+	case "C02-readonly":
+		return []string{"readonly"}
 	}
 	return nil
 }
@@ -43,6 +47,13 @@ func genFinalComponents(p *simkit.Plan, r *simkit.Rand, tier string) {
 		p.Cfg["proto"] = int64(r.Intn(2))
 	case "housekeeping":
 		genHousekeeping(p, r, tier)
+	case "readonly":
+		var id int64 = 100
+		for i := r.Range(1, 8); i > 0; i-- {
+			genEditOn(r, p, "init", &id, "alpha")
+		}
+		p.Cfg["mode"] = int64(r.Range(2, 3))
+		p.Cfg["order"] = int64(r.Intn(2))
 	}
 }
 
@@ -52,8 +63,70 @@ func execFinalComponents(t *testing.T, plan *simkit.Plan) *simkit.Result {
 		return execAtomic(plan)
 	case "housekeeping":
 		return execHousekeeping(t, plan)
+	case "readonly":
+		return execReadOnly(t, plan)
 	}
 	return nil
+}
+
+// execReadOnly decides the second half of C02's first clause on the real local
+// endpoint: an alpha endpoint of a one-way session refuses Stage and
+// Transition (a misbehaving controller cannot make it modify the source).
+func execReadOnly(t *testing.T, plan *simkit.Plan) *simkit.Result {
+	var nontrivial bool
+	res := simkit.Run(t, plan, simkit.Options{MaxSteps: 1000, Horizon: time.Hour}, func(s *simkit.Sim) {
+		c := newComp(s, plan)
+		defer c.close()
+		c.rebuild(plan)
+		cfg := &synchronization.Configuration{
+			SynchronizationMode: modes[plan.C("mode")%4],
+			WatchMode:           synchronization.WatchMode_WatchModeNoWatch,
+		}
+		ep := c.endpoint("alpha", true, cfg)
+		defer ep.Shutdown()
+		ctx := context.Background()
+		snap, err, _ := ep.Scan(ctx, nil, true)
+		if err != nil {
+			return
+		}
+		nontrivial = true
+		before := c.d.walkTree("alpha")
+		var victim string
+		walk(snap.Content, "", func(p string, e *core.Entry) {
+			if victim == "" && p != "" && !unsyncKind(e.Kind) {
+				victim = p
+			}
+		})
+		calls := []func() error{
+			func() error {
+				_, _, _, err := ep.Stage([]string{"newfile"}, [][]byte{digestOf(5)})
+				return err
+			},
+			func() error {
+				changes := []*core.Change{{Path: "created-by-misbehaving-controller", New: dirEntry()}}
+				if victim != "" {
+					changes = append(changes, &core.Change{Path: victim, Old: syncPart(lookup(snap.Content, victim))})
+				}
+				_, _, _, err := ep.Transition(ctx, changes)
+				return err
+			},
+		}
+		if plan.C("order") == 1 {
+			calls[0], calls[1] = calls[1], calls[0]
+		}
+		for i, call := range calls {
+			if err := call(); err == nil {
+				s.Violate("C02", "alpha-endpoint-accepted-request", "readonly", "call %d (order %d): the alpha endpoint of a %v session accepted a staging or transition request", i, plan.C("order"), cfg.SynchronizationMode)
+			}
+			s.Count("probe.readonly_refusals", 1)
+		}
+		if after := c.d.walkTree("alpha"); !deepEqual(before, after) {
+			s.Violate("C02", "alpha-modified", "readonly", "the source root changed from %s to %s", render(before), render(after))
+		}
+	})
+	res.NonTrivial = nontrivial
+	res.Fingerprint = simkit.Digest(res.JournalHash, fmt.Sprint(plan.Ops))
+	return res
 }
 
 // ------------------------------------------------------- C27 atomic writes
